@@ -80,6 +80,15 @@ func Run(o Opts, args ...string) Result {
 	if r.TimedOut {
 		r = runOnce(o, 90*time.Second, args)
 	}
+	// A failure of the harness to run or to collect the process (exec error, pipes not drained on an
+	// overloaded machine) says nothing about knut: retry, and give up loudly rather than judge it.
+	for attempt := 0; r.Exit == -2 && attempt < 3; attempt++ {
+		time.Sleep(time.Duration(attempt+1) * 500 * time.Millisecond)
+		r = runOnce(o, 90*time.Second, args)
+	}
+	if r.Exit == -2 {
+		panic("harness: cannot run knut: " + r.Stderr)
+	}
 	return r
 }
 
@@ -107,7 +116,7 @@ func runOnce(o Opts, timeout time.Duration, args []string) Result {
 	var so, se bytes.Buffer
 	cmd.Stdout = &so
 	cmd.Stderr = &se
-	cmd.WaitDelay = 2 * time.Second
+	cmd.WaitDelay = 30 * time.Second
 	err := cmd.Run()
 	res := Result{Stdout: so.String(), Stderr: se.String()}
 	if err != nil {
